@@ -159,7 +159,7 @@ func runC06(c *Ctx) {
 		}
 		same := false
 		for _, in := range retB.Instrs {
-			if ret, ok := in.(*ssa.Return); ok && len(ret.Results) == 1 {
+			if ret, ok := in.(*ssa.Return); ok && isReturn(in) && len(ret.Results) == 1 {
 				if _, f, base, ok := loadedField(unspill(ret, 0)); ok && f == "clusterName" {
 					if _, _, wbase, ok2 := loadedField(stripConvNum(w)); ok2 && base == wbase {
 						same = true
@@ -211,7 +211,7 @@ func isZero(v ssa.Value) bool { n, ok := constInt(v); return ok && n == 0 }
 func blockReturnsName(b *ssa.BasicBlock) bool {
 	for i := 0; i < 4; i++ {
 		last := b.Instrs[len(b.Instrs)-1]
-		if _, ok := last.(*ssa.Return); ok {
+		if _, ok := last.(*ssa.Return); ok && isReturn(last) {
 			return true
 		}
 		if _, ok := last.(*ssa.Jump); ok && !inLoop(b) {
@@ -718,7 +718,7 @@ func c06WeightsReachScheduler(c *Ctx) {
 				v = cv.X
 			}
 			if w, ok := v.(*ssa.Call); ok && methodName(w.Common()) == "Weight" {
-				if ta, ok := w.Common().Value.(*ssa.TypeAssert); ok && ta.X == ssa.Value(fn.Params[1]) {
+				if ta, ok := w.Common().Value.(*ssa.TypeAssert); ok && sameParam(ta.X, fn.Params[1]) {
 					good = true
 				}
 			}
